@@ -55,6 +55,13 @@ Check(r, idx) ==
     \* the code under test panicked inside a goroutine the cache started (maintenance): the policy structures are corrupt and,
     \* with the eviction mutex never released, neither the bound nor the notifications are maintained any more
     \o (IF r.libpanic # "" THEN <<F(idx, "C05.abnormal_end", r.libpanic), F(idx, "C04.abnormal_end", r.libpanic), F(idx, "C06.abnormal_end", r.libpanic)>> ELSE <<>>)
+    \* C17, cache level: the read buffer has ONE consumer at a time (the holder of the eviction mutex); after the final clean-up
+    \* of a quiescent cache every recorded read has been delivered
+    \o (IF r.libpanic = "" /\ r.rbuf # 0 THEN <<F(idx, "C17.read_buffer_not_drained", r.rbuf)>> ELSE <<>>)
+    \* C07, concurrent form: a cache that never exceeds its maximum loses nothing to size eviction
+    \o (IF hasSize /\ r.sc.size = "count" /\ r.sc.keys <= r.sc.max /\ r.sc.setmax = <<>> /\ r.sc.stale = 0 /\ r.sc.smallbuf = 0
+           /\ \E j \in DOMAIN evA : evA[j].c = "Overflow"
+        THEN <<F(idx, "C07.overflow_within_maximum", <<r.sc.keys, r.sc.max, evA>>)>> ELSE <<>>)
     \o (IF r.status # 0 \/ r.wbuf # 0 THEN <<F(idx, "C14.pending", <<r.status, r.wbuf>>)>> ELSE <<>>)
     \* C05: policy bookkeeping agrees with the map
     \o (IF a1 # {} THEN <<F(idx, "C05.alive_iff_mapped", a1)>> ELSE <<>>)
